@@ -193,6 +193,31 @@ def make_builtins(it):
         return v.oid >= it.ctx.ghost.get("entry_oid", 0)
     reg("$is_fresh", f_is_fresh)
 
+    def _class_of(it, key):
+        modname, _, cname = key.partition(":")
+        mod = it.program.load(it.program.full_name(modname))
+        ci = mod.globals.get(cname)
+        if ci is None:
+            raise Unsupported("class_attr: unknown class " + key)
+        return ci
+
+    def f_class_attr(it, args, kw):
+        """class_attr('structs:RF24NetworkHeader', '__next_id'): current value of a class attribute
+        (the class body's value unless the path has assigned it)"""
+        ci = _class_of(it, args[0])
+        owner, v = ci.find_attr(args[1])
+        if owner is None:
+            raise Unsupported("class_attr: no attribute " + args[1])
+        return it.ctx.class_state.get((owner.key, args[1]), v)
+    reg("$class_attr", f_class_attr)
+
+    def f_set_class_attr(it, args, kw):
+        ci = _class_of(it, args[0])
+        owner, _ = ci.find_attr(args[1])
+        it.ctx.class_state[((owner or ci).key, args[1])] = args[2]
+        return None
+    reg("$set_class_attr", f_set_class_attr)
+
     def f_bytes_of(it, args, kw):
         """immutable copy of a bytes-like (spec helper; same as bytes(x))"""
         t = ops.bytes_term(it, args[0])
